@@ -158,32 +158,7 @@ func checkC07(c *Ctx) {
 			}
 		}
 		c.Check(ok, "R2", "connection goroutine removes its table entry after the run returns", create.Pos(), "go { c.Start(); u.removeClient(addr) }", "a finished backend connection is not removed from the table: later requests for that address keep getting the dead connection")
-		// Close between reader return and writer join, in every component with reader/writer pair
-		for _, comp := range []struct{ fn, reader string }{{"(*client).Start", "loopRead"}, {"(*session).Serve", "loopRead"}} {
-			fn := p.Func(redisPkg, comp.fn)
-			if fn == nil {
-				c.Unresolved("R2", comp.fn)
-				continue
-			}
-			var rd, join, cl ssa.Instruction
-			eachInstr(fn, func(_ *ssa.BasicBlock, _ int, in ssa.Instruction) {
-				if cc := callOf(in); cc != nil {
-					if g := calleeFn(cc); g != nil && g.Name() == comp.reader {
-						rd = in
-					}
-					if cc.IsInvoke() && cc.Method.Name() == "Close" && rd != nil && cl == nil {
-						if f, _ := loadedField(cc.Value); f != nil && f.Name() == "conn" {
-							cl = in
-						}
-					}
-				}
-				if u, ok := in.(*ssa.UnOp); ok && u.Op == token.ARROW && localLatchClosedByGoroutine(fn, u.X) {
-					join = in
-				}
-			})
-			okc := rd != nil && join != nil && cl != nil && instrDominates(rd, cl) && instrDominates(cl, join)
-			c.Check(okc, "R2", fnKey(fn)+" closes the connection before joining the writer", fn.Pos(), "reader returns -> conn.Close() -> join", "after the reader returns the connection is not closed before the writer is joined: a writer blocked in a socket write (backend stopped reading) is never woken, the connection's goroutine never ends, its queued requests are never answered and the dead connection is never replaced")
-		}
+		checkCloseBeforeJoin(c, "R2")
 	}
 	c.Expect("R2", 3)
 
@@ -388,4 +363,108 @@ func checkC07(c *Ctx) {
 	c.Expect("R6", 2)
 	checkSlotFill(c, "R7")
 	checkClusterNodesParser(c, "R7")
+	c.Rule("R8", "a successfully parsed cluster view is always applied (no acceptance test between the parser and the table update)")
+	checkParsedViewApplied(c, "R8")
+	c.Rule("R9", "no lock is held at a join that the joined goroutines need (shared with C09.R7): replacing or removing hosts cannot wedge the upstream")
+	c.withAlias(map[string]string{"R7": "R9"}, func() { checkWaitForCycles(c) })
 }
+
+// checkParsedViewApplied (C07.R8): once the cluster view has been parsed successfully it is applied: no path from the
+// success edge of the parse returns an error. An all-or-nothing acceptance test on top of the parser (e.g. "every slot
+// must be covered") keeps the whole table stale for as long as any part of the cluster is degraded, so layout changes
+// of the healthy slots are never learned and their requests are redirected for ever.
+func checkParsedViewApplied(c *Ctx, rule string) {
+	p := c.P
+	parse := p.Func(redisPkg, "parseClusterNodes")
+	if parse == nil {
+		c.Unresolved(rule, "parseClusterNodes")
+		return
+	}
+	n := 0
+	for _, ed := range p.callersOf(parse) {
+		fn := ed.Caller.Func
+		if p.isTestFn(fn) {
+			continue
+		}
+		call, ok := ed.Site.(*ssa.Call)
+		if !ok {
+			continue
+		}
+		n++
+		site := "parsed view applied in " + fnKey(fn)
+		// success edge: err == nil
+		var okBlock *ssa.BasicBlock
+		for _, r := range *call.Referrers() {
+			ex, isEx := r.(*ssa.Extract)
+			if !isEx || ex.Index != 1 {
+				continue
+			}
+			for _, r2 := range *ex.Referrers() {
+				bo, isBo := r2.(*ssa.BinOp)
+				if !isBo || !isNilConst(bo.Y) {
+					continue
+				}
+				for _, r3 := range *bo.Referrers() {
+					if iff, isIf := r3.(*ssa.If); isIf {
+						if bo.Op == token.NEQ {
+							okBlock = iff.Block().Succs[1]
+						} else if bo.Op == token.EQL {
+							okBlock = iff.Block().Succs[0]
+						}
+					}
+				}
+			}
+		}
+		if okBlock == nil {
+			c.Undecided(rule, site, call.Pos(), "the error of the parser is not tested")
+			continue
+		}
+		path := findPath(ipos{okBlock, -1}, pathQuery{target: func(x ssa.Instruction) bool {
+			r, ok := x.(*ssa.Return)
+			if !ok || len(r.Results) == 0 {
+				return false
+			}
+			last := r.Results[len(r.Results)-1]
+			if _, isErr := last.Type().Underlying().(*types.Interface); !isErr {
+				return false
+			}
+			return !isNilConst(last)
+		}})
+		c.Check(path == nil, rule, site, call.Pos(), "after a successful parse no path returns an error", "a successfully parsed cluster view can still be rejected ("+p.pathString(path)+"): while the condition holds every refresh round fails, so the routing table stays as it was - slots that moved are redirected for ever although their new owner is known")
+	}
+	if n == 0 {
+		c.Unresolved(rule, "no caller of parseClusterNodes")
+	}
+}
+
+// checkCloseBeforeJoin (C07.R2, C02.R9): in every component with a reader/writer pair the connection is closed after
+// the reader returns and before the writer is joined - a writer blocked in a socket write is only woken by the close.
+func checkCloseBeforeJoin(c *Ctx, rule string) {
+	p := c.P
+		// Close between reader return and writer join, in every component with reader/writer pair
+		for _, comp := range []struct{ fn, reader string }{{"(*client).Start", "loopRead"}, {"(*session).Serve", "loopRead"}} {
+			fn := p.Func(redisPkg, comp.fn)
+			if fn == nil {
+				c.Unresolved(rule, comp.fn)
+				continue
+			}
+			var rd, join, cl ssa.Instruction
+			eachInstr(fn, func(_ *ssa.BasicBlock, _ int, in ssa.Instruction) {
+				if cc := callOf(in); cc != nil {
+					if g := calleeFn(cc); g != nil && g.Name() == comp.reader {
+						rd = in
+					}
+					if cc.IsInvoke() && cc.Method.Name() == "Close" && rd != nil && cl == nil {
+						if f, _ := loadedField(cc.Value); f != nil && f.Name() == "conn" {
+							cl = in
+						}
+					}
+				}
+				if u, ok := in.(*ssa.UnOp); ok && u.Op == token.ARROW && localLatchClosedByGoroutine(fn, u.X) {
+					join = in
+				}
+			})
+			okc := rd != nil && join != nil && cl != nil && instrDominates(rd, cl) && instrDominates(cl, join)
+			c.Check(okc, rule, fnKey(fn)+" closes the connection before joining the writer", fn.Pos(), "reader returns -> conn.Close() -> join", "after the reader returns the connection is not closed before the writer is joined: a writer blocked in a socket write (backend stopped reading) is never woken, the connection's goroutine never ends, its queued requests are never answered and the dead connection is never replaced")
+		}
+	}
